@@ -475,6 +475,8 @@ fn main() {
             }
         }
     }
+    // the largest number of simultaneously running attempts the included sweeps can reach (vacuity guard below)
+    let want_in_flight = sweeps.iter().filter(|s| s.idem && s.mask == 0).map(|s| (1 + s.m).min(s.p) as u64).max().unwrap_or(0);
     let outcomes: Mutex<BTreeSet<(bool, String, usize, usize)>> = Mutex::new(BTreeSet::new());
     let mut capped = false;
     for pr in sweeps {
@@ -544,7 +546,7 @@ fn main() {
     r.counters.max("max_in_flight_idempotent", oc.iter().filter(|o| o.0).map(|o| o.3 as u64).max().unwrap_or(0));
     r.counters.max("max_in_flight_nonidempotent", oc.iter().filter(|o| !o.0).map(|o| o.3 as u64).max().unwrap_or(0));
     r.counters.max("max_fibers_idempotent", oc.iter().filter(|o| o.0).map(|o| o.2 as u64).max().unwrap_or(0));
-    if r.violation_count() == 0 && (r.counters.get("max_in_flight_idempotent") < (1 + max_m).min(max_p) as u64 || oc.len() < 8) {
+    if r.violation_count() == 0 && (r.counters.get("max_in_flight_idempotent") < want_in_flight || oc.len() < 8) {
         vcore::machinery_error("vacuity: the idempotent sweeps never had 1+max attempts in flight / too few distinct outcomes");
     }
     r.set_rule(&format!("E-ASYNC, full enumeration: plan length 0..={max_p} x max speculative count 0..={max_m} x idempotent flag Default retry policy (and DowngradingConsistency for plan 1..={dmax_p} x max 0..={dmax_m}, with WriteTimeout(SIMPLE) as a fifth failure), initial consistency QUORUM; events complete(attempt, success | Overloaded | ReadTimeout(enough replies, no data) | Unavailable(alive=2) | SyntaxError) and timer tick, one event then polling to quiescence. states/transitions = choice points (+terminal states) / alternatives of the schedule tree; traces_validated = schedules re-executed from recorded choices with identical observation trace (1-in-{audit_k} deterministic subset + 2x per violation). distinct_nontrivial = schedules with two attempts in flight at once (idempotent) or a timer tick between two attempts (non-idempotent)."));
